@@ -924,12 +924,16 @@ pub fn direction(net: &Net, m: &Msg) -> (usize, usize) {
 pub struct Moment {
     pub c_min: u64,
     pub c_max: u64,
+    /// the caller's own virtual instant
+    pub t: u64,
+    /// the link clock at the call (the end of the step the caller is in; a controller sits on the boundary)
+    pub link: u64,
 }
 
 pub fn moment(ev: &Ev, tick: u64) -> Moment {
     match ev.host {
-        None => Moment { c_min: ev.t, c_max: ev.t },
-        Some(_) => Moment { c_min: ev.t.min(ev.step as u64 * tick), c_max: ev.t.max(ev.step as u64 * tick) },
+        None => Moment { c_min: ev.t, c_max: ev.t, t: ev.t, link: ev.t },
+        Some(_) => Moment { c_min: ev.t.min(ev.step as u64 * tick), c_max: ev.t.max(ev.step as u64 * tick), t: ev.t, link: ev.step as u64 * tick },
     }
 }
 
@@ -944,9 +948,12 @@ pub fn certainly_arrived(send: &Ev, lmax: u64, tick: u64, m: Moment) -> bool {
     link_clock_at_send(send, tick) + lmax <= m.c_min
 }
 
-/// ... is certainly still in flight (latency not elapsed under either reading) at moment `m`.
-pub fn certainly_in_flight(send: &Ev, lmin: u64, m: Moment) -> bool {
-    send.t + lmin > m.c_max
+/// ... is certainly still in flight at moment `m`: its latency has not elapsed on the clocks of the hosts
+/// (sender's instant against caller's instant) nor on the link clock (link clock at the send against link
+/// clock at the call). Inside one step both clocks stand still for a call that follows the send, so any
+/// latency above zero keeps the message in flight there.
+pub fn certainly_in_flight(send: &Ev, lmin: u64, tick: u64, m: Moment) -> bool {
+    send.t + lmin > m.t && link_clock_at_send(send, tick) + lmin > m.link
 }
 
 /// Event order and virtual time disagree about which of a host-issued call and a send by another
